@@ -3,10 +3,13 @@
    interpreter on every one of them and exports them (tree + source text written by TmplSem!TmSrc) as cases.
 
    Family "ctl": every SHAPE (a tree of construct kinds: text, show, var, assignment, macro-call statement, break,
-   continue, if [else | else if ...], three-clause for, for range [else], for in [else], switch of 2..3 clauses,
-   macro declaration, using) of at most TmplMaxNodes nodes - every construct nested in every construct, bodies
+   continue, if [else | else if ...], three-clause for, for with a condition only, for without condition, for range [else],
+   for in [else], switch of 2..3 clauses, select with only a default clause, macro declaration, using) of at most TmplMaxNodes nodes - every construct nested in every construct, bodies
    of every size, break / continue only where they are valid.  The optional and lexical parts of a shape
-   (expressions, names, which using form, clause values / default position / fallthrough of a switch, range
+   (a text leaf is a text, a comment or a raw statement; what is ranged over: slices, strings incl. a two-byte rune, maps with at most
+   one key; which macro: N(), O(p string), Q(k int, b bool) with a bounded recursion; the LAYOUT: one file, import, import with a
+   name, extends with and without the macro that `Side() default` asks for, render - the tree goes into the imported / extending /
+   rendered file; expressions, names, which using form, clause values / default position / fallthrough of a switch, range
    variables, init statements, macro parameters and result types, {{ }} vs {% show %}, var vs :=, end vs end if,
    and vs &&) are FILLED from context-dependent alternative lists (only declared names, only well-typed
    expressions) by a deterministic rotation over (shape number, slot number, TmplSeed): TmplVariants fills per
@@ -27,7 +30,10 @@
      ThOnceVsMacro {% var zz = 0 %}{% var yy = itea; using %}B{{ zz }}{% end %}{% zz = 7 %}{{ yy }}   renders B's output + "0",
                    the same with  using macro  and {{ yy() }}  renders B's output + "7": rendering once and rendering
                    at the call differ exactly by the variable that changed in between
-     ThSize        the printed source is not empty and the tree has at most the bound's nodes
+     ThLayout      the one-file tree that the case's layout (import / extends / render) is equivalent to renders B's output framed by
+                   the layout's own text (for render: twice)
+     ThSize        the printed source is not empty and the tree has at most 4 x the bound's nodes (the fills add the statements that
+                   bound the while loops and the recursion)
    (B containing a run-time error makes every variant a runerror as well.) *)
 EXTENDS TmplSem, TmplSemCfg, TLC, Json, SequencesExt
 
@@ -57,7 +63,8 @@ SkNodes(cx, k) ==
   IF k = 1 THEN SkLeaves(cx)
   ELSE LET sc == [loop |-> cx.loop, sw |-> TRUE] IN
        SkIfs(cx, k)
-       \cup {[k |-> "for3", body |-> b] : b \in SkBodies(InLoop, k - 1)}
+       \cup {[k |-> kk, body |-> b] : kk \in {"for3", "while", "forever"}, b \in SkBodies(InLoop, k - 1)}
+       \cup {[k |-> "select", body |-> b] : b \in SkBodies(sc, k - 1)}
        \cup {[k |-> kk, body |-> b, els |-> <<>>] : kk \in {"range", "forin"}, b \in SkBodies(InLoop, k - 1)}
        \* a break in the else body of a loop would belong to an enclosing loop: not generated
        \cup Cup5(LAMBDA i : {[k |-> kk, body |-> b, els |-> e] : kk \in {"range", "forin"}, b \in SkBodies(InLoop, i), e \in SkBodies(InFunc, k - 1 - i)}, k - 2)
@@ -84,7 +91,8 @@ RBody(cx, m, r, c) ==
 RNode(cx, k, r, c) ==
   IF k = 1 THEN [n |-> DPk(SetToSeq(SkLeaves(cx)), r, c), c |-> c + 1]
   ELSE LET sc == [loop |-> cx.loop, sw |-> TRUE]
-           kind0 == DPk(<<"if", "for3", "range", "forin", "macro", "using", "switch2", "ifelse", "ifelif", "rangeelse", "forinelse", "switch3", "using", "for3">>, r, c)
+           kind0 == DPk(<<"if", "for3", "range", "forin", "macro", "using", "switch2", "ifelse", "ifelif", "rangeelse", "forinelse", "switch3", "using", "while",
+                          "forever", "select", "range", "macro">>, r, c)
            kind == IF k = 2 /\ kind0 \in {"ifelse", "ifelif", "rangeelse", "forinelse"} THEN "if" ELSE IF k = 3 /\ kind0 = "ifelif" THEN "ifelse" ELSE kind0
            i == IF kind = "ifelif" THEN 1 + (DMix(r, c + 1) % (k - 3)) ELSE IF k > 2 THEN 1 + (DMix(r, c + 1) % (k - 2)) ELSE 1      \* size of the first body
            s1 == DMix(r, c + 1) % k                                     \* sizes of the clauses of a switch
@@ -94,7 +102,8 @@ RNode(cx, k, r, c) ==
                                [n |-> [k |-> "if", a |-> a.b, els |-> b.b, elif |-> FALSE], c |-> b.c]
          [] kind = "ifelif" -> LET a == RBody(cx, i, r, c + 2)  b == RBody(cx, k - 2 - i, r, a.c) IN
                                [n |-> [k |-> "if", a |-> a.b, els |-> <<[k |-> "if", a |-> b.b, els |-> <<>>, elif |-> FALSE]>>, elif |-> TRUE], c |-> b.c]
-         [] kind = "for3" -> LET a == RBody(InLoop, k - 1, r, c + 2) IN [n |-> [k |-> "for3", body |-> a.b], c |-> a.c]
+         [] kind \in {"for3", "while", "forever"} -> LET a == RBody(InLoop, k - 1, r, c + 2) IN [n |-> [k |-> kind, body |-> a.b], c |-> a.c]
+         [] kind = "select" -> LET a == RBody(sc, k - 1, r, c + 2) IN [n |-> [k |-> "select", body |-> a.b], c |-> a.c]
          [] kind \in {"range", "forin"} -> LET a == RBody(InLoop, k - 1, r, c + 2) IN [n |-> [k |-> kind, body |-> a.b, els |-> <<>>], c |-> a.c]
          [] kind \in {"rangeelse", "forinelse"} -> LET a == RBody(InLoop, i, r, c + 2)  b == RBody(InFunc, k - 1 - i, r, a.c) IN
                                [n |-> [k |-> IF kind = "rangeelse" THEN "range" ELSE "forin", body |-> a.b, els |-> b.b], c |-> b.c]
@@ -128,10 +137,13 @@ Call0(f) == XCall(f, <<>>)
 RawInt == <<XI(0), XI(1), XI(2), XV("n"), XBin("+", XV("n"), XI(1)), XLen(XV("s")), XLen(XV("l")), XIdx(XV("l"), XI(0)),
                       XBin("*", XV("n"), XI(2)), XBin("-", XV("n"), XI(1)), XV("i"), XV("i"), XBin("+", XV("i"), XV("n")), XV("v"), XV("m"), XV("k"),
                       XBin("/", XI(6), XV("n")), XBin("%", XV("n"), XI(2)), XIdx(XV("l"), XV("n")), XIdx(XV("l"), XV("i"))>>
+\* shown only (a rune is an int32: it is not assignable to the int variables)
+RawRune == <<XV("u"), XBin("+", XV("u"), XI(1))>>
 \* K() changes n: it stands alone (the order of a variable read and a call within one expression is not specified by Go)
 RawStr == <<XS(L(97)), XS(<<>>), XV("s"), XBin("+", XV("s"), XS(L(99))), Call0("M"), XCall("P", <<XV("s")>>), XCall("P", <<XS(L(122))>>),
                       Call0("K"), XV("w"), XV("y"), XV("t"), XV("p"), Call0("f"), Call0("N"), XCall("O", <<XS(L(122))>>), XCall("O", <<XV("s")>>),
-                      XBin("+", Call0("M"), XS(L(99))), XBin("+", XV("t"), XV("s")), XV("y"), Call0("N")>>
+                      XBin("+", Call0("M"), XS(L(99))), XBin("+", XV("t"), XV("s")), XV("y"), Call0("N"),
+                      XCall("Q", <<XI(1), XV("b")>>), XCall("Q", <<XI(2), XB(FALSE)>>)>>
 \* boolean typed, not constant (usable as the clauses of a switch without tag)
 RawNCBool == <<XV("b"), XCmp("==", XV("n"), XI(1)), XCmp("<", XV("n"), XI(2)), XNot(XV("b")), XNot(XV("s")),
                          XAnd(XV("b"), XCmp("==", XV("n"), XI(1))), XOr(XV("s"), XV("n")), XCmp("==", XV("s"), XS(L(107))),
@@ -139,17 +151,17 @@ RawNCBool == <<XV("b"), XCmp("==", XV("n"), XI(1)), XCmp("<", XV("n"), XI(2)), X
                          XCmp("==", XV("i"), XI(1)), XCmp("<", XV("i"), XI(1)), XCmp("==", XV("i"), XI(1)), XCmp("==", XV("v"), XI(3)),
                          XCmp("==", XV("w"), XS(L(120))), XCmp(">", XV("m"), XI(1)), XCmp("!=", XLen(XV("s")), XI(1)), XCmp(">=", XV("n"), XI(2)),
                          [XAnd(XV("b"), XV("b")) EXCEPT !.go = TRUE], [XOr(XV("b"), XCmp("==", XV("n"), XI(1))) EXCEPT !.go = TRUE], [XNot(XV("b")) EXCEPT !.go = TRUE],
-                         XCmp("==", XV("k"), XI(1)), XAnd(XV("l"), XV("q")), XNot(XV("l"))>>
+                         XCmp("==", XV("k"), XI(1)), XAnd(XV("l"), XV("q")), XNot(XV("l")), XCmp("==", XV("u"), XI(97)), XCmp(">", XV("u"), XI(200))>>
 \* more conditions: any type
 RawCond == <<XV("s"), XV("n"), XV("l"), XV("i"), Call0("K"), Call0("M"), XLen(XV("s")), XV("v"), XV("w"), XV("t"), XV("m"),
                                     XSl("int", <<>>), XS(<<>>), XI(0), XV("y"), XV("p"), Call0("N")>>
 RawDef == <<XDef("gs", XS(L(100))), XDef("gn", XI(7)), XDef("gu", XV("s")), XDef("gs", XV("s"))>>
 Annot(xs) == [j \in 1..Len(xs) |-> <<TmFree(xs[j]), xs[j]>>] \o <<>>
-Tables == [int |-> Annot(RawInt), str |-> Annot(RawStr), ncb |-> Annot(RawNCBool), cond |-> Annot(RawCond), def |-> Annot(RawDef)]
+Tables == [rune |-> Annot(RawRune), int |-> Annot(RawInt), str |-> Annot(RawStr), ncb |-> Annot(RawNCBool), cond |-> Annot(RawCond), def |-> Annot(RawDef)]
 InScope(tab, vis) == LET sel == SelectSeq(tab, LAMBDA a : a[1] \subseteq vis) IN [j \in 1..Len(sel) |-> sel[j][2]] \o <<>>
 Lists(T, vis) == LET int == InScope(T.int, vis)  str == InScope(T.str, vis)  ncb == InScope(T.ncb, vis) IN
                  [int |-> int, str |-> str, ncb |-> ncb, cond |-> <<XB(TRUE), XB(FALSE)>> \o ncb \o InScope(T.cond, vis),
-                  show |-> int \o str \o ncb \o InScope(T.def, vis)]
+                  show |-> int \o str \o ncb \o InScope(T.def, vis) \o InScope(T.rune, vis)]
 SetVis(cx, vis) == IF vis = cx.vis THEN cx ELSE [cx EXCEPT !.vis = vis, !.xs = Lists(cx.T, vis)]
 IntX(cx) == cx.xs.int
 StrX(cx) == cx.xs.str
@@ -183,7 +195,7 @@ FAssign(cx, r, c) ==
      LET op == Pk(<<"=", "+=", "=">>, r, c + 1)
          \* v += x reads v and evaluates x in an order that Go does not specify: x calls no generated macro (their bodies may assign to v)
          xs == IF op = "=" THEN StrX(cx) \o Visible(<<XDef("gs", XS(L(100))), XDef("gu", XV("s"))>>, cx)
-               ELSE SelectSeq(StrX(cx), LAMBDA x : TmFree(x) \cap {"N", "O", "f"} = {}) IN
+               ELSE SelectSeq(StrX(cx), LAMBDA x : TmFree(x) \cap {"N", "O", "Q", "f"} = {}) IN
      FR(NAssign(v, op, Pk(xs, r, c + 2)), cx, c + 3)
   ELSE FR(NAssign(v, "=", Pk(BoolX(cx), r, c + 1)), cx, c + 3)
 
@@ -204,7 +216,8 @@ FShow(cx, r, c) ==
        ELSE FR(NShow(<<Pk(xs, r, c + 1)>>, TmMix(r, c + 2) % 2 = 0), cx, c + 3)
 
 FExpr(cx, r, c) ==
-  LET xs == Visible(<<Call0("K"), Call0("M"), XCall("P", <<XS(L(122))>>), Call0("N"), XCall("O", <<XV("s")>>), Call0("f"), Call0("K")>>, cx) IN
+  LET xs == Visible(<<Call0("K"), Call0("M"), XCall("P", <<XS(L(122))>>), Call0("N"), XCall("O", <<XV("s")>>), Call0("f"), Call0("K"),
+                          XCall("Q", <<XI(2), XB(TRUE)>>)>>, cx) IN
   IF xs = <<>> THEN FR(NText(TextOf(cx, r, c)), cx, c + 1) ELSE FR(NExpr(Pk(xs, r, c)), cx, c + 1)
 
 \* the shapes of a switch by number of clauses: <<default?, fallthrough?>> per clause
@@ -230,7 +243,8 @@ FClauses(bodies, shape, j, tk, off, cx, rc) ==
        [cls |-> <<NClause(shape[j][1], vals, fb.b, shape[j][2])>> \o rest.cls, c |-> rest.c]
 
 FNode(sk, cx, r, c) ==
-  CASE sk.k = "text" -> FR(NText(TextOf(cx, r, c)), cx, c + 1)
+  CASE sk.k = "text" -> LET w == TmMix(r, c + 1) % 6 IN
+                        FR(IF w = 0 THEN NComment(TextOf(cx, r, c)) ELSE IF w = 1 THEN NRaw(TextOf(cx, r, c), TmMix(r, c) % 2 = 1) ELSE NText(TextOf(cx, r, c)), cx, c + 2)
     [] sk.k = "show" -> FShow(cx, r, c)
     [] sk.k = "var" -> FVar(cx, r, c)
     [] sk.k = "assign" -> FAssign(cx, r, c)
@@ -253,16 +267,29 @@ FNode(sk, cx, r, c) ==
              post == Pk(<<NAssign("i", "++", XI(0)), NAssign("i", "+=", XI(1)), NAssign("i", "=", XBin("+", XV("i"), XI(1))), NAssign("i", "+=", XI(2)), NAssign("i", "++", XI(0))>>, r, c + 2) IN
          FR(NFor3("i", Pk(<<XI(0), XI(0), XI(1)>>, r, c), XCmp(Pk(<<"<", "<", "<=">>, r, c + 3), XV("i"), Pk(<<XI(2), XI(3), XI(1), XI(0), XI(2)>>, r, c + 1)),
                   post, fb.b, TmMix(r, c + 3) % 2 = 1), cx, fb.c)
+    \* {% for c < lim %} / {% for %}: the body first increments the counter c of the prelude (nothing else assigns it), so the loops end
+    [] sk.k \in {"while", "forever"} ->
+         LET fb == FBody(sk.body, 1, Inner(cx, 1), r, c + 2)
+             lim == Pk(<<XI(2), XI(3), XI(4), XI(6), XI(1)>>, r, c)
+             inc == NAssign("c", Pk(<<"++", "+=">>, r, c + 1), XI(1)) IN
+         FR(IF sk.k = "while" THEN NWhile(XCmp(Pk(<<"<", "<", "<=">>, r, c + 1), XV("c"), lim), <<inc>> \o fb.b, TmMix(r, c) % 2 = 1)
+            ELSE NForever(<<inc, NIf(<<>>, XCmp(">", XV("c"), lim), <<NBreak>>, <<>>, FALSE, FALSE)>> \o fb.b, TmMix(r, c) % 2 = 1), cx, fb.c)
+    [] sk.k = "select" -> LET fb == FBody(sk.body, 1, Inner(cx, 1), r, c + 1) IN FR(NSelect(fb.b, TmMix(r, c) % 2 = 1), cx, fb.c)
     [] sk.k \in {"range", "forin"} ->
          LET x == Pk(Visible(<<XV("l"), XV("q"), XSl("int", <<>>), XSl("string", <<>>), XSl("int", <<XI(5), XI(6), XI(7)>>), XSl("string", <<XS(L(117))>>),
-                               XV("l"), XV("q"), XSl("int", <<XV("n"), XI(3)>>)>>, cx), r, c)
-             isInt == IF x.e = "slice" THEN x.et = "int" ELSE x.v = "l"
-             ev == IF isInt THEN "v" ELSE "w"
-             form == IF sk.k = "forin" THEN <<"", ev>> ELSE Pk(<< <<"", "">>, <<"i", "">>, <<"i", ev>>, <<"_", ev>>, <<"i", ev>> >>, r, c + 1)
+                               XV("l"), XV("q"), XSl("int", <<XV("n"), XI(3)>>), XS(<<97, 98>>), XS(<<97, 195, 168, 98>>), XS(<<>>), XV("s"),
+                               XMap(<<[k |-> L(97), v |-> 7]>>), XMap(<<>>), XMap(<<[k |-> L(107), v |-> 0]>>)>>, cx), r, c)
+             \* what is ranged over: ints / strs (slices), str (a string: byte index, rune), map (string key, int value)
+             kd == IF x.e = "slice" THEN (IF x.et = "int" THEN "ints" ELSE "strs") ELSE IF x.e = "str" THEN "str" ELSE IF x.e = "map" THEN "map"
+                   ELSE IF x.v = "l" THEN "ints" ELSE IF x.v = "q" THEN "strs" ELSE "str"
+             ik == IF kd = "map" THEN "w" ELSE "i"                      \* the names carry the types: i v int, w string
+             ev == IF kd = "strs" THEN "w" ELSE IF kd = "str" THEN "u" ELSE "v"    \* u: a rune (int32): shown or compared with a constant only
+             form == IF sk.k = "forin" THEN <<"", IF kd = "map" THEN "w" ELSE ev>>
+                     ELSE Pk(<< <<"", "">>, <<ik, "">>, <<ik, ev>>, <<"_", ev>>, <<ik, ev>> >>, r, c + 1)
              cxb == Declare(Inner(cx, 1), {form[1], form[2]} \ {"", "_"})
              fb == FBody(sk.body, 1, cxb, r, c + 3)
              fe == FBody(sk.els, 1, Inner(cx, 2), r, fb.c) IN
-         FR(IF sk.k = "forin" THEN NForIn(ev, x, fb.b, fe.b, TmMix(r, c + 2) % 2 = 1) ELSE NRange(form[1], form[2], x, fb.b, fe.b, TmMix(r, c + 2) % 2 = 1), cx, fe.c)
+         FR(IF sk.k = "forin" THEN NForIn(form[2], x, fb.b, fe.b, TmMix(r, c + 2) % 2 = 1) ELSE NRange(form[1], form[2], x, fb.b, fe.b, TmMix(r, c + 2) % 2 = 1), cx, fe.c)
     [] sk.k = "switch" ->
          LET tags == Visible(<<XV("n"), XLen(XV("s")), XV("s"), XB(TRUE), XV("i"), XV("v"), XBin("+", XV("n"), XI(1)), XV("m"), XV("w"), XV("k")>>, cx)
              tag0 == Pk(tags \o <<XB(TRUE)>>, r, c)
@@ -275,14 +302,19 @@ FNode(sk, cx, r, c) ==
          FR(NSwitch(IF withInit THEN <<NVar("k", Pk(<<XI(1), XV("n"), XI(2)>>, r, c + 3), TRUE)>> ELSE <<>>,
                     IF tk = "cond" /\ ~withInit THEN <<>> ELSE <<tag>>, fc.cls, TmMix(r, c + 2) % 2 = 1), cx, fc.c)
     [] sk.k = "macro" ->
-         LET name == IF "N" \notin cx.here THEN "N" ELSE IF "O" \notin cx.here THEN "O" ELSE ""
-             ps == IF name = "O" THEN <<TmParam("p", "string")>> ELSE <<>>
-             \* the body does not see the macro's own name (no recursion is generated) nor, being callable from anywhere later, f
+         \* N(), O(p string), Q(k int, b bool).  The generated part of a body does not see the macro's own name; the body of Q starts with
+         \* {% if k > 0 %}{{ Q(k - 1, not b) }}{% end %}: a recursion bounded by its first argument (no generated statement assigns k)
+         LET free == SelectSeq(<<"N", "O", "Q">>, LAMBDA nm : nm \notin cx.here)
+             name == IF free = <<>> THEN "" ELSE Pk(free, r, c)
+             ps == IF name = "O" THEN <<TmParam("p", "string")>> ELSE IF name = "Q" THEN <<TmParam("k", "int"), TmParam("b", "bool")>> ELSE <<>>
+             pn == {ps[j].n : j \in 1..Len(ps)}
              cxb0 == Inner(cx, 1)
-             cxb == [SetVis(cxb0, (cxb0.vis \ {name}) \cup (IF name = "O" THEN {"p"} ELSE {})) EXCEPT !.here = IF name = "O" THEN {"p"} ELSE {}]
-             fb == FBody(sk.body, 1, IF name = "" THEN cxb0 ELSE cxb, r, c + 2) IN
+             cxb == [SetVis(cxb0, (cxb0.vis \ {name}) \cup pn) EXCEPT !.here = pn]
+             fb == FBody(sk.body, 1, IF name = "" THEN cxb0 ELSE cxb, r, c + 2)
+             guard == IF name = "Q" THEN <<NIf(<<>>, XCmp(">", XV("k"), XI(0)), <<NShow(<<XCall("Q", <<XBin("-", XV("k"), XI(1)), XNot(XV("b"))>>)>>, TRUE)>>, <<>>, FALSE, FALSE)>>
+                      ELSE <<>> IN
          IF name = "" THEN FR(NIf(<<>>, XB(TRUE), fb.b, <<>>, FALSE, FALSE), cx, fb.c)
-         ELSE FR(NMacro(name, ps, TmMix(r, c) % 2 = 0, Pk(<<"", "", "string">>, r, c + 1), fb.b, TmMix(r, c + 1) % 2 = 1), Declare(cx, {name}), fb.c)
+         ELSE FR(NMacro(name, ps, TmMix(r, c) % 2 = 0, Pk(<<"", "", "string">>, r, c + 1), guard \o fb.b, TmMix(r, c + 1) % 2 = 1), Declare(cx, {name}), fb.c)
     [] sk.k = "using" ->
          LET forms == <<"show", "var", "assign", "call", "showcall", "mshow", "mparam", "mvar", "default", "show2", "mshow2", "mvar", "var", "show">>
              form0 == Pk(forms, r, c)
@@ -292,7 +324,7 @@ FNode(sk, cx, r, c) ==
              ps == IF form = "mparam" THEN <<TmParam("p", "string")>> ELSE <<>>
              cxb0 == Inner(cx, 1)
              \* a macro that is stored in f may be called from bodies of N / O: its body calls no generated macro (no cycles)
-             cxb == [SetVis(cxb0, IF form = "mvar" THEN cxb0.vis \ {"f", "N", "O"} ELSE IF form = "mparam" THEN cxb0.vis \cup {"p"} ELSE cxb0.vis)
+             cxb == [SetVis(cxb0, IF form = "mvar" THEN cxb0.vis \ {"f", "N", "O", "Q"} ELSE IF form = "mparam" THEN cxb0.vis \cup {"p"} ELSE cxb0.vis)
                      EXCEPT !.here = IF form = "mparam" THEN {"p"} ELSE {}]
              fb == FBody(sk.body, 1, cxb, r, c + 3)
              itea == XV("itea")
@@ -321,7 +353,7 @@ FNode(sk, cx, r, c) ==
 (* ------------------------------------------------------------------------------------------------
    cases
    ------------------------------------------------------------------------------------------------ *)
-PreNames == {"n", "s", "b", "l", "q", "M", "P", "K"}
+PreNames == {"n", "s", "b", "c", "l", "q", "M", "P", "K"}
 Cx0 == LET T == Tables IN [vis |-> PreNames, here |-> PreNames, t |-> 0, pos |-> 1, T |-> T, xs |-> Lists(T, PreNames)]
 Globs == << <<>>, <<[n |-> "gs", t |-> "str", s |-> L(71), i |-> 0]>>,
             <<[n |-> "gs", t |-> "str", s |-> <<>>, i |-> 0], [n |-> "gn", t |-> "int", s |-> <<>>, i |-> 5]>> >>
@@ -343,6 +375,7 @@ HsOk(s) == CASE s.k = "show" -> HxAll(s.xs, 1, TRUE) [] s.k \in {"var", "assign"
 HnOk(nd, txt) == CASE nd.k \in {"show", "var", "assign", "expr"} -> HsOk(nd)
               [] nd.k = "if" -> (nd.init = <<>> \/ HsOk(nd.init[1])) /\ HxOk(nd.c, TRUE) /\ HbOk(nd.a, 1, txt) /\ HbOk(nd.els, 1, txt)
               [] nd.k = "for3" -> HxOk(nd.from, FALSE) /\ HxOk(nd.c, FALSE) /\ HbOk(nd.body, 1, txt)
+              [] nd.k \in {"while", "forever", "select"} -> HbOk(nd.body, 1, txt)
               [] nd.k \in {"range", "forin"} -> HbOk(nd.body, 1, txt) /\ HbOk(nd.els, 1, txt)
               [] nd.k = "switch" -> (nd.init = <<>> \/ HsOk(nd.init[1])) /\ (nd.tag = <<>> \/ HxOk(nd.tag[1], FALSE))
                                     /\ \A j \in 1..Len(nd.cls) : HxAll(nd.cls[j].vals, 1, FALSE) /\ HbOk(nd.cls[j].body, 1, txt)
@@ -352,8 +385,10 @@ HnOk(nd, txt) == CASE nd.k \in {"show", "var", "assign", "expr"} -> HsOk(nd)
               [] OTHER -> TRUE
 HbOk(b, i, txt) == i > Len(b) \/ (HnOk(b[i], txt) /\ HbOk(b, i + 1, txt))
 
+\* the layout of a case: one file for most, the others by rotation
+LayoutOf(id) == <<"single", "import", "single", "extends", "single", "render", "single", "importas", "single", "extendsside", "single">>[(id % 11) + 1]
 MkCase(id, fam, tree, g, shape) ==
-  [id |-> id, fam |-> fam, fmt |-> IF HbOk(tree, 1, FALSE) /\ id % 3 = 0 THEN "html" ELSE "txt", pre |-> "P1", glob |-> g, tree |-> tree,
+  [id |-> id, fam |-> fam, fmt |-> IF HbOk(tree, 1, FALSE) /\ id % 3 = 0 THEN "html" ELSE "txt", lay |-> LayoutOf(id), pre |-> "P1", glob |-> g, tree |-> tree,
    src |-> TmSrc(tree), shape |-> shape]
 
 \* ---- family ctl
@@ -431,6 +466,13 @@ Probes == <<
   \* {% end using %} written with its keyword inside a macro whose result type is written; another macro follows (.html)
   <<NMacro("N", <<>>, TRUE, "string", <<NText(L(118)), NUsing(NShow(<<Itea>>, FALSE), FALSE, <<>>, FALSE, "", <<NText(L(111))>>, TRUE), NText(L(120))>>, TRUE),
     NMacro("O", <<>>, FALSE, "", <<NText(L(107))>>, FALSE), NShow(<<Call0("N"), Call0("O")>>, FALSE)>>,
+  \* a fallthrough after a macro declaration / a using statement; a continue after a for without condition; a map key next to
+  \* another string variable; a run-time error in a macro called from a macro (the reference: the run fails with a run error)
+  <<NSwitch(<<>>, <<XV("n")>>, <<NClause(FALSE, <<XI(1)>>, <<NUsing(NShow(<<Itea>>, FALSE), FALSE, <<>>, FALSE, "", <<NText(L(117))>>, FALSE)>>, TRUE),
+                                NClause(FALSE, <<XI(2)>>, <<NText(L(98))>>, FALSE)>>, FALSE)>>,
+  <<NForIn("v", XV("l"), <<NText(L(97)), NForever(<<NText(L(120)), NBreak>>, FALSE), NIf(<<>>, XCmp("==", XV("v"), XI(3)), <<NContinue>>, <<>>, FALSE, FALSE), NText(L(98))>>, <<>>, FALSE)>>,
+  <<NRange("w", "", XMap(<<[k |-> L(97), v |-> 7]>>), <<NAssign("s", "+=", XV("w"))>>, <<>>, FALSE)>>,
+  <<NMacro("N", <<>>, FALSE, "", <<NShow(<<XIdx(XV("l"), XI(5))>>, TRUE)>>, FALSE), NMacro("O", <<>>, FALSE, "", <<NText(L(97)), NShow(<<Call0("N")>>, TRUE)>>, FALSE), NShow(<<Call0("O")>>, TRUE)>>,
   \* the body of a using is not rendered when itea is never evaluated (gs declared) - and is when gs is not declared
   <<NUsing(NShow(<<XDef("gs", Itea)>>, FALSE), FALSE, <<>>, FALSE, "", <<NAssign("n", "=", XI(8)), NShow(<<XIdx(XV("l"), XI(9))>>, TRUE)>>, FALSE), ShowV("n")>>
 >>
@@ -448,8 +490,10 @@ CasesOf(S, E, P, X) ==
       ex == [j \in 1..Len(me) |-> MkCase(1000000 + me[j], "expr", E[me[j]], Globs[(me[j] % 3) + 1], 0)]
       pr == [j \in 1..Len(mp) |-> MkCase(2000000 + mp[j], "probe", P[((mp[j] - 1) \div 3) + 1], Globs[((mp[j] - 1) % 3) + 1], 0)]
       dp == [j \in 1..Len(md) |-> DeepCase(X, md[j])] IN
-  (IF TmplFamilies \in {"all", "ctl"} THEN ctl ELSE <<>>) \o (IF TmplFamilies \in {"all", "expr"} THEN ex ELSE <<>>) \o (IF TmplFamilies \in {"all", "expr", "probe"} THEN pr ELSE <<>>)
-  \o (IF TmplFamilies \in {"all", "deep"} THEN dp ELSE <<>>)
+  \* a filled tree that is outside the reference's domain (out of fuel, a string doubled in nested loops) is dropped here
+  SelectSeq((IF TmplFamilies \in {"all", "ctl"} THEN ctl ELSE <<>>) \o (IF TmplFamilies \in {"all", "expr"} THEN ex ELSE <<>>)
+            \o (IF TmplFamilies \in {"all", "expr", "probe"} THEN pr ELSE <<>>) \o (IF TmplFamilies \in {"all", "deep"} THEN dp ELSE <<>>),
+            LAMBDA cs : TmRun(TmEquiv(cs.lay, "P1", cs.tree), cs.glob, "periter").outcome \in {"ok", "runerror"})
 \* (the shapes are bound to a VALUE by a comprehension over a singleton before the cases are built from them)
 Cases == CHOOSE C \in {CasesOf(S, E, P, X) : S \in {SetToSeq(SkAll(TmplMaxNodes))}, E \in {ExprSeq}, P \in {Probes}, X \in {Cx0}} : TRUE
 
@@ -477,7 +521,14 @@ Theorems(cs) ==
                    /\ (base.outcome = "ok" => \E j \in 1..Len(once.out) :           \* (the epilogue follows the shown value)
                           /\ once.out[j] = 48 /\ Without(once.out, j) = base.out
                           /\ Len(atcall.out) = Len(once.out) /\ atcall.out[j] = 55 /\ Without(atcall.out, j) = base.out),
-   size |-> cs.src # <<>> /\ (cs.fam = "ctl" => TmTreeSize(cs.tree) <= TmplMaxNodes) /\ (cs.fam = "deep" => TmTreeSize(cs.tree) <= TmplDeepMax)]
+   layout |-> LET eq == TmRun(TmEquiv(cs.lay, "P1", B), g, "periter")  o == base.out IN
+              /\ eq.outcome = base.outcome
+              /\ (base.outcome = "ok" => eq.out = CASE cs.lay = "single" -> o
+                                                   [] cs.lay \in {"import", "importas"} -> <<120>> \o o \o <<55>>
+                                                   [] cs.lay = "extends" -> <<120>> \o o \o <<121, 100, 101>>
+                                                   [] cs.lay = "extendsside" -> <<120>> \o o \o <<121, 115, 101>>
+                                                   [] cs.lay = "render" -> <<97>> \o o \o <<98>> \o o \o <<100>>),
+   size |-> cs.src # <<>> /\ (cs.fam = "ctl" => TmTreeSize(cs.tree) <= 4 * TmplMaxNodes) /\ (cs.fam = "deep" => TmTreeSize(cs.tree) <= 4 * TmplDeepMax)]
 
 \* Two phases, two TLC runs (measured: with several workers TLC evaluates the single-threaded generation 6 times slower):
 \*   TmplPhase = "gen"    one worker: the case sequence is computed ONCE (bound by \E over a singleton: TLC re-evaluates a
@@ -489,7 +540,8 @@ CasesIn == IF TmplPhase = "check" THEN ndJsonDeserialize("cases.ndjson") ELSE <<
 Init == IF TmplPhase = "gen"
         THEN \E C \in {Cases} : /\ PrintT(<<"cases generated", Len(C), JavaTime>>)
                                 /\ ndJsonSerialize("cases.ndjson", C)
-                                /\ ndJsonSerialize("frame.ndjson", <<[pre |-> "P1", head |-> TmSrc(TmPrelude("P1")), tail |-> TmSrc(TmEpilogue("P1"))]>>)
+                                /\ ndJsonSerialize("frame.ndjson", SetToSeq({[lay |-> la, fmt |-> ex, pre |-> "P1", files |-> TmFrame(la, "P1", ex)] :
+                                                                               la \in TmLayouts, ex \in {"txt", "html"}}))
                                 /\ cs = 0 /\ res = [id |-> -1]
         ELSE cs \in 1..Len(CasesIn) /\ res = [id |-> 0]
 Next == res.id = 0 /\ res' = Theorems(CasesIn[cs]) /\ UNCHANGED cs
@@ -500,4 +552,5 @@ ThUsingShow == res.id > 0 => res.usingshow
 ThMacroCall == res.id > 0 => res.macrocall
 ThOnceVsMacro == res.id > 0 => res.oncevsmacro
 ThSize == res.id > 0 => res.size
+ThLayout == res.id > 0 => res.layout
 =============================================================================
